@@ -602,7 +602,7 @@ def moment(
         raise ValueError("Order must be an integer >= 0")
 
     if order < 2:
-        reduced = a.sum(axis=axis)  # get reduced shape and chunks
+        reduced = a.sum(axis=axis, keepdims=keepdims)  # get reduced shape and chunks
         if order == 0:
             # When order equals 0, the result is 1, by definition.
             return ones(
